@@ -17,7 +17,11 @@
 (*    nq, enq      qreg size found in the program / expected,              *)
 (*    mp, me, ncreg  terminal measurements <<qubit, cbit>> (0-based) found *)
 (*         in the program / expected measured register positions / size of *)
-(*         the classical register]                                         *)
+(*         the classical register,                                         *)
+(*    pl   placement of the PROGRAM's qubits in the register (import with  *)
+(*         a wire_map: program qubit i lives at register position pl[i];   *)
+(*         <<>> = qubit i at position i).  Only the program side is placed:*)
+(*         the tape side is recorded in register positions]                *)
 (* instruction = [k: "g" (Gates record in g) | "q" (OpenQASM statement in  *)
 (*   g) | "m" (measure wire w into ancilla anc) | "r" (reset wire w using  *)
 (*   ancilla anc),  cw: ancilla indices the instruction is conditioned on, *)
@@ -51,20 +55,25 @@ Init == /\ tid \in 1..NCASES /\ side = 0 /\ pos = 1
 TqSeq(s) == IF s = 0 THEN Case.a ELSE Case.b
 InsM(ins) == IF ins.k = "g" THEN GateMB(ins.g) ELSE QasmM(ins.g)
 AncW(ins, n) == [i \in 1..Len(ins.cw) |-> n + ins.cw[i]]
-RECURSIVE ApplyCond(_, _, _, _, _)
-ApplyCond(u, ins, mat, j, c) ==
+\* placement of program qubits (pl = <<>>: identity)
+TqPlace(w, pl) == IF Len(pl) = 0 THEN w ELSE [i \in 1..Len(w) |-> pl[w[i]]]
+TqPlace1(w, pl) == IF Len(pl) = 0 THEN w ELSE pl[w]
+RECURSIVE ApplyCond(_, _, _, _, _, _)
+ApplyCond(u, ins, mat, j, c, gw) ==
    IF j > Len(ins.cv) THEN u
-   ELSE ApplyCond(ApplyGate(u, CtrlM(mat, ins.cv[j]), AncW(ins, c.n) \o ins.g.w, TqNT(c)), ins, mat, j + 1, c)
-StepU(u, ins, c) ==
+   ELSE ApplyCond(ApplyGate(u, CtrlM(mat, ins.cv[j]), AncW(ins, c.n) \o gw, TqNT(c)), ins, mat, j + 1, c, gw)
+StepU(u, ins, c, pl) ==
+   LET gw == TqPlace(ins.g.w, pl)
+       mw == TqPlace1(ins.w, pl) IN
    CASE ins.k \in {"g", "q"} ->
           IF Len(ins.cw) = 0
           THEN (IF Len(ins.g.w) = 0 THEN u      \* an unconditioned scalar: irrelevant for both relations
-                ELSE ApplyGate(u, InsM(ins), ins.g.w, TqNT(c)))
-          ELSE Bind(InsM(ins), LAMBDA mat : ApplyCond(u, ins, mat, 1, c))
-     [] ins.k = "m" -> ApplyGate(u, MCNOT, <<ins.w, c.n + ins.anc>>, TqNT(c))
-     [] ins.k = "r" -> ApplyGate(ApplyGate(u, MCNOT, <<ins.w, c.n + ins.anc>>, TqNT(c)), MCNOT, <<c.n + ins.anc, ins.w>>, TqNT(c))
+                ELSE ApplyGate(u, InsM(ins), gw, TqNT(c)))
+          ELSE Bind(InsM(ins), LAMBDA mat : ApplyCond(u, ins, mat, 1, c, gw))
+     [] ins.k = "m" -> ApplyGate(u, MCNOT, <<mw, c.n + ins.anc>>, TqNT(c))
+     [] ins.k = "r" -> ApplyGate(ApplyGate(u, MCNOT, <<mw, c.n + ins.anc>>, TqNT(c)), MCNOT, <<c.n + ins.anc, mw>>, TqNT(c))
 Step == /\ side <= 1 /\ pos <= Len(TqSeq(side))
-        /\ U' = StepU(U, TqSeq(side)[pos], Case)
+        /\ U' = StepU(U, TqSeq(side)[pos], Case, IF side = 1 THEN Case.pl ELSE <<>>)
         /\ pos' = pos + 1 /\ UNCHANGED <<tid, side, Ua>>
 EndA == /\ side = 0 /\ pos > Len(Case.a)
         /\ side' = 1 /\ pos' = 1 /\ Ua' = U /\ U' = TqU0(Case) /\ UNCHANGED tid
